@@ -129,6 +129,8 @@ type Run struct {
 	exhaustive  bool
 	replayFile  string
 	notes       []string
+	walOn       bool
+	lastFlush   time.Time
 }
 
 func env(k, d string) string {
@@ -200,6 +202,11 @@ func trimStack(s string) string {
 func (r *Run) record(chk string, raw []byte, o *Obs, err error) {
 	r.mu.Lock()
 	defer r.mu.Unlock()
+	if r.walOn && time.Since(r.lastFlush) > 3*time.Second {
+		// a process-killing case leaves no chance to write evidence: keep a recent copy on disk
+		r.lastFlush = time.Now()
+		r.writeShardLocked()
+	}
 	r.evals++
 	r.perCheck[chk]++
 	for _, tg := range o.tags {
@@ -236,6 +243,7 @@ func Add[T any](r *Run, p Prop[T]) {
 	eval := func(cs T, raw []byte, witness bool) (*Obs, error) {
 		o := &Obs{Witness: witness}
 		if p.WAL && !witness {
+			r.walOn = true
 			r.walWrite(p.Name, raw)
 		}
 		err := safe(func() error { return p.Pred(cs, o) })
@@ -559,6 +567,10 @@ func (r *Run) finish() {
 	}
 	r.mu.Lock()
 	defer r.mu.Unlock()
+	r.writeShardLocked()
+}
+
+func (r *Run) writeShardLocked() {
 	sort.Slice(r.samples, func(i, j int) bool { return r.samples[i].hash < r.samples[j].hash })
 	ev := shardEvidence{
 		Property: r.Prop, Tier: r.Tier, Seed: r.Seed, Shard: r.Shard, Level: r.cfg.Level, Rule: r.cfg.Rule,
